@@ -727,9 +727,11 @@ def judge_all(c, runner, scns, observations, seen, stats):
     lines = [model_line(s, runner) for s in scns]
     models, err = run_model(lines)
     if models is None or len(models) != len(scns) or any("final" not in m for m in models):
-        c.violation("model:cache", "model driver failed (`rinkmodel cache`)",
-                    {"kind": "obligation", "obligation": "rinkmodel cache", "output": err or "answers=%s requests=%d" % (None if models is None else len(models), len(scns)),
-                     "first_bad": next((m["raw"] for m in (models or []) if "final" not in m), None)}, found=False)
+        if not stats.get("model_failed"):
+            stats["model_failed"] = True
+            c.violation("model:cache", "model driver failed (`rinkmodel cache`)",
+                        {"kind": "obligation", "obligation": "rinkmodel cache", "output": err or "answers=%s requests=%d" % (None if models is None else len(models), len(scns)),
+                         "first_bad": next((m["raw"] for m in (models or []) if "final" not in m), None)}, found=False)
         models = [None] * len(scns)
     for scn, obs, md in zip(scns, observations, models):
         stats["runs"] += 2          # the scenario and its next start
